@@ -29,6 +29,11 @@ structure St where
   log : List Access                  -- newest first
   errs : List (List Nat)             -- texts of the errors caught by infallible assignments, in
                                      -- order, as recorded on the implementation (opaque to the model)
+  evRet : Bool := false              -- a `return` was evaluated            (relevance flags used by
+  evAbort : Bool := false            -- an `abort` was evaluated              the per-property oracles)
+  evClosure : Bool := false          -- a closure-taking function was called
+  evCatch : Bool := false            -- `??` or `ok, err =` was evaluated
+  evShort : Bool := false            -- `||`, `&&` or `if` was evaluated
 
 abbrev Thunk := St → Res × St
 
@@ -109,45 +114,48 @@ def cCleanup (s : St) (ident : Option String) (old : Option Value) : St :=
   | some n, none => s.delVar n
   | none, _ => s
 
-/-- `Runner::run_key_value`: converts `Return` into the iteration's value; on any other error the
-    parameters are NOT restored (`let value = result?;` comes before `cleanup`). -/
+/-- `Runner::run`: a `return` in the body ends the iteration with the returned value. -/
+def runBody (body : Thunk) (s : St) : Res × St :=
+  match body s with
+  | (.ret v, s) => (.ok v, s)
+  | r => r
+
+/-- `Runner::run_key_value`: bind the parameters, run the body, restore the parameters (on every
+    outcome), then propagate the result. -/
 def runKeyValue (vars : List String) (body : Thunk) (key : List Nat) (value : Value) (s : St) :
     Res × St :=
   let (oldK, s) := cInsert s (cIdent vars 0) (.bytes key)
   let (oldV, s) := cInsert s (cIdent vars 1) value
-  match body s with
-  | (.ok v, s) | (.ret v, s) =>
-    let s := cCleanup s (cIdent vars 0) oldK
-    let s := cCleanup s (cIdent vars 1) oldV
-    (.ok v, s)
-  | r => r
+  let (r, s) := runBody body s
+  let s := cCleanup s (cIdent vars 1) oldV
+  let s := cCleanup s (cIdent vars 0) oldK
+  (r, s)
 
-/-- `Runner::run_index_value`: does not convert `Return`. -/
+/-- `Runner::run_index_value` -/
 def runIndexValue (vars : List String) (body : Thunk) (index : Nat) (value : Value) (s : St) :
     Res × St :=
   let (oldI, s) := cInsert s (cIdent vars 0) (.int index)
   let (oldV, s) := cInsert s (cIdent vars 1) value
-  match body s with
-  | (.ok v, s) =>
-    let s := cCleanup s (cIdent vars 0) oldI
-    let s := cCleanup s (cIdent vars 1) oldV
-    (.ok v, s)
-  | r => r
+  let (r, s) := runBody body s
+  let s := cCleanup s (cIdent vars 1) oldV
+  let s := cCleanup s (cIdent vars 0) oldI
+  (r, s)
 
 /-- `Runner::map_key` -/
 def mapKey (vars : List String) (body : Thunk) (key : List Nat) (s : St) : Except Res (List Nat) × St :=
   let (old, s) := cInsert s (cIdent vars 0) (.bytes key)
-  match body s with
-  | (.ok (.bytes b), s) => (.ok b, cCleanup s (cIdent vars 0) old)
-  | (.ok _, s) => (.error .err, s)          -- `try_bytes_utf8_lossy()?`
-  | (r, s) => (.error r, s)
+  let (r, s) := runBody body s
+  let s := cCleanup s (cIdent vars 0) old
+  match r with
+  | .ok (.bytes b) => (.ok b, s)
+  | .ok _ => (.error .err, s)          -- `try_bytes_utf8_lossy()?`
+  | r => (.error r, s)
 
 /-- `Runner::map_value` -/
 def mapValue (vars : List String) (body : Thunk) (value : Value) (s : St) : Res × St :=
   let (old, s) := cInsert s (cIdent vars 0) value
-  match body s with
-  | (.ok v, s) => (.ok v, cCleanup s (cIdent vars 0) old)
-  | r => r
+  let (r, s) := runBody body s
+  (r, cCleanup s (cIdent vars 0) old)
 
 /-! iteration over runtime collections (structural recursion on the collection) -/
 
@@ -283,31 +291,23 @@ def parseI64 (b : List Nat) : Option Int :=
     let i : Int := if neg then -(n : Int) else n
     if i < -9223372036854775808 || i > 9223372036854775807 then none else some i
 
-def validUtf8 : List Nat → Bool
-  | [] => true
-  | b :: rest =>
-    if b < 0x80 then validUtf8 rest
+/-- UTF-8 validity (`str::from_utf8`), as a state machine over the bytes: `need` continuation
+    bytes are still expected, the next one within `[lo, hi)`. -/
+def validUtf8Aux : Nat → Nat → Nat → List Nat → Bool
+  | 0, _, _, [] => true
+  | _ + 1, _, _, [] => false
+  | 0, _, _, b :: rest =>
+    if b < 0x80 then validUtf8Aux 0 0 0 rest
     else if b < 0xC2 then false
-    else if b < 0xE0 then
-      match rest with
-      | c :: r => 0x80 ≤ c && c < 0xC0 && validUtf8 r
-      | _ => false
+    else if b < 0xE0 then validUtf8Aux 1 0x80 0xC0 rest
     else if b < 0xF0 then
-      match rest with
-      | c :: d :: r =>
-        let lo := if b == 0xE0 then 0xA0 else 0x80
-        let hi := if b == 0xED then 0xA0 else 0xC0
-        lo ≤ c && c < hi && 0x80 ≤ d && d < 0xC0 && validUtf8 r
-      | _ => false
+      validUtf8Aux 2 (if b == 0xE0 then 0xA0 else 0x80) (if b == 0xED then 0xA0 else 0xC0) rest
     else if b < 0xF5 then
-      match rest with
-      | c :: d :: e :: r =>
-        let lo := if b == 0xF0 then 0x90 else 0x80
-        let hi := if b == 0xF4 then 0x90 else 0xC0
-        lo ≤ c && c < hi && 0x80 ≤ d && d < 0xC0 && 0x80 ≤ e && e < 0xC0 && validUtf8 r
-      | _ => false
+      validUtf8Aux 3 (if b == 0xF0 then 0x90 else 0x80) (if b == 0xF4 then 0x90 else 0xC0) rest
     else false
-termination_by l => l.length
+  | n + 1, lo, hi, b :: rest => decide (lo ≤ b) && decide (b < hi) && validUtf8Aux n 0x80 0xC0 rest
+
+def validUtf8 (b : List Nat) : Bool := validUtf8Aux 0 0 0 b
 
 /-- value-level semantics of the pure functions (`none` = not modelled for this input). -/
 def purFn (name : String) (args : List (Option Value)) : Res :=
@@ -417,15 +417,6 @@ def callFn (name : String) (args : List (Option String × Thunk)) (closure : Opt
          | (.error r, s) => (r, s))
       | _, _, _ => (.oom, s)
 
-/-- `FunctionCall::resolve`: `Abort` propagates, `Return` and errors become an error. -/
-def wrapCall : Res → Res
-  | .ok v => .ok v
-  | .abort m => .abort m
-  | .ret _ => .err
-  | .err => .err
-  | .panic => .panic
-  | .oom => .oom
-
 def valueToBool : Value → Option Bool
   | .bool b => some b
   | _ => none
@@ -443,33 +434,32 @@ mutual
        | (.error r, s) => (r, s))
     | .obj kvs, s =>
       (match evalKVs kvs s with
-       | (.ok m, s) => (.ok (.obj m), s)
+       | (.ok mp, s) => (.ok (.obj mp), s)
        | (.error r, s) => (r, s))
     | .ifte pred thn hasElse els, s =>
-      (match evalSeq pred s with
+      (match evalSeq pred { s with evShort := true } with
        | (.ok (.bool true), s) => evalSeq thn s
        | (.ok (.bool false), s) => if hasElse then evalSeq els s else (.ok .null, s)
        | (.ok _, s) => (.err, s)                       -- `try_boolean()?`
        | r => r)
     | .op .err l r, s =>
-      -- `lhs.resolve(ctx).or_else(|_| rhs.resolve(ctx))`: every `Err` is caught
-      (match eval l s with
-       | (.ok v, s) => (.ok v, s)
-       | (.panic, s) => (.panic, s)
-       | (.oom, s) => (.oom, s)
-       | (_, s) => eval r s)
+      -- `??`: only a runtime error of the lhs is handled; `abort`/`return` pass through
+      (match eval l { s with evCatch := true } with
+       | (.err, s) => eval r s
+       | r => r)
     | .op .or l r, s =>
-      (match eval l s with
+      (match eval l { s with evShort := true } with
        | (.ok .null, s) | (.ok (.bool false), s) =>
-         -- `rhs().map_err(ValueError::Or)`: abort/return/error all become an error
+         -- an error of the rhs is wrapped into `ValueError::Or` (still an error);
+         -- `abort`/`return` pass through
          (match eval r s with
           | (.ok v, s) => (.ok v, s)
           | (.panic, s) => (.panic, s)
           | (.oom, s) => (.oom, s)
-          | (_, s) => (.err, s))
+          | r => r)
        | r => r)
     | .op .and l r, s =>
-      (match eval l s with
+      (match eval l { s with evShort := true } with
        | (.ok .null, s) | (.ok (.bool false), s) => (.ok (.bool false), s)
        | (.ok v, s) =>
          (match eval r s with
@@ -491,7 +481,7 @@ mutual
           | none => (.panic, s))
        | r => r)
     | .iasg okT errT e dflt, s =>
-      (match eval e s with
+      (match eval e { s with evCatch := true } with
        | (.ok v, s) =>
          (match okT.insert v s with
           | none => (.panic, s)
@@ -501,8 +491,10 @@ mutual
             | some s => (.ok v, s))
        | (.panic, s) => (.panic, s)
        | (.oom, s) => (.oom, s)
-       | (_, s) =>
-         -- every `Err(error)` (error, abort, return) is caught; `err` receives `error.to_string()`
+       | (.abort x, s) => (.abort x, s)
+       | (.ret x, s) => (.ret x, s)
+       | (.err, s) =>
+         -- only a runtime error is captured; `err` receives `error.to_string()`
          (match okT.insert dflt s with
           | none => (.panic, s)
           | some s =>
@@ -513,8 +505,8 @@ mutual
               match errT.insert (.bytes msg) s with
               | none => (.panic, s)
               | some s => (.ok (.bytes msg), s)))
-    | .qext m p, s =>
-      let (r, s) := s.targetGet m p
+    | .qext mt p, s =>
+      let (r, s) := s.targetGet mt p
       (.ok (r.getD .null), s)
     | .qvar n p, s => (.ok (((s.getVar n).getD .null).get p |>.getD .null), s)
     | .qexpr e p, s =>
@@ -530,64 +522,54 @@ mutual
     | .abort hasMsg msg, s =>
       if hasMsg then
         (match eval msg s with
-         | (.ok (.bytes b), s) => if validUtf8 b then (.abort (some b), s) else (.oom, s)
+         | (.ok (.bytes b), s) =>
+           if validUtf8 b then (.abort (some b), { s with evAbort := true }) else (.oom, s)
          | (.ok _, s) => (.err, s)
          | r => r)
-      else (.abort none, s)
+      else (.abort none, { s with evAbort := true })
     | .ret e, s =>
       (match eval e s with
-       | (.ok v, s) => (.ret v, s)
+       | (.ok v, s) => (.ret v, { s with evRet := true })
+       | r => r)
+    | .delExt mt p hasC c, s =>
+      (match (if hasC then eval c s else (.ok (.bool false), s)) with
+       | (.ok (.bool compact), s) =>
+         let (r, s) := s.targetRemove mt p compact
+         (.ok (r.getD .null), s)
+       | (.ok _, s) => (.err, s)
+       | r => r)
+    | .delVar n p hasC c, s =>
+      (match (if hasC then eval c s else (.ok (.bool false), s)) with
+       | (.ok (.bool compact), s) =>
+         (match s.getVar n with
+          | some v =>
+            let (r, v') := v.remove p compact
+            (.ok (r.getD .null), s.setVar n v')
+          | none => (.ok .null, s))
+       | (.ok _, s) => (.err, s)
+       | r => r)
+    | .delExpr e p hasC c, s =>
+      (match (if hasC then eval c s else (.ok (.bool false), s)) with
+       | (.ok (.bool _), s) =>
+         (match eval e s with
+          | (.ok v, s) => (.ok ((v.get p).getD .null), s)
+          | r => r)
+       | (.ok _, s) => (.err, s)
+       | r => r)
+    | .existsExt mt p, s =>
+      let (r, s) := s.targetGet mt p
+      (.ok (.bool r.isSome), s)
+    | .existsVar n p, s =>
+      (match s.getVar n with
+       | some v => (.ok (.bool (v.get p).isSome), s)
+       | none => (.ok (.bool false), s))
+    | .existsExpr e p, s =>
+      (match eval e s with
+       | (.ok v, s) => (.ok (.bool (v.get p).isSome), s)
        | r => r)
     | .call name _ _ args hasClosure cvars cbody, s =>
-      if name == "del" then
-        (match args with
-         | .cons _ q rest =>
-           let compactR : Res × St := match rest with
-             | .cons _ c _ => eval c s
-             | .nil => (.ok (.bool false), s)
-           (match compactR with
-            | (.ok (.bool compact), s) =>
-              let r : Res × St := match q with
-                | .qext m p =>
-                  let (r, s) := s.targetRemove m p compact
-                  (.ok (r.getD .null), s)
-                | .qvar n p =>
-                  (match s.getVar n with
-                   | some v =>
-                     let (r, v') := v.remove p compact
-                     (.ok (r.getD .null), s.setVar n v')
-                   | none => (.ok .null, s))
-                | .qexpr e p =>
-                  (match eval e s with
-                   | (.ok v, s) => (.ok ((v.get p).getD .null), s)
-                   | r => r)
-                | _ => (.oom, s)
-              (wrapCall r.1, r.2)
-            | (.ok _, s) => (.err, s)
-            | (r, s) => (wrapCall r, s))
-         | .nil => (.oom, s))
-      else if name == "exists" then
-        (match args with
-         | .cons _ q .nil =>
-           let r : Res × St := match q with
-             | .qext m p =>
-               let (r, s) := s.targetGet m p
-               (.ok (.bool r.isSome), s)
-             | .qvar n p =>
-               (match s.getVar n with
-                | some v => (.ok (.bool (v.get p).isSome), s)
-                | none => (.ok (.bool false), s))
-             | .qexpr e p =>
-               (match eval e s with
-                | (.ok v, s) => (.ok (.bool (v.get p).isSome), s)
-                | r => r)
-             | _ => (.oom, s)
-           (wrapCall r.1, r.2)
-         | _ => (.oom, s))
-      else
-        let closure := if hasClosure then some (cvars, fun s => evalSeq cbody s) else none
-        let r := callFn name (thunks args) closure s
-        (wrapCall r.1, r.2)
+      let closure := if hasClosure then some (cvars, fun s => evalSeq cbody s) else none
+      callFn name (thunks args) closure (if hasClosure then { s with evClosure := true } else s)
 
   /-- `Block::resolve` (also the program and predicates): all but the last with `?`, then the last. -/
   def evalSeq : Exprs → St → Res × St
@@ -615,7 +597,7 @@ mutual
       (match eval e s with
        | (.ok v, s) =>
          (match evalKVs kes s with
-          | (.ok m, s) => (.ok (.cons k v m), s)
+          | (.ok mp, s) => (.ok (.cons k v mp), s)
           | r => r)
        | (r, s) => (.error r, s))
 
@@ -631,6 +613,7 @@ inductive RunOutcome where
   | abort (msg : Option (List Nat))
   | panic
   | oom
+  deriving DecidableEq
 
 /-- `Runtime::resolve`: root check (one target read), then the program block;
     `Return` at top level is success. -/
